@@ -51,7 +51,7 @@ pub open spec fn hover_answers(r: std::result::Result<Option<Hover>, Report>, wa
     ensures
         hover_answers(r, hover_entry(&cursor.doc, &cursor.context, cursor_ident(cursor)), cursor_ident(cursor), cursor.doc.text@), //# hover::the_declaration_the_identifier_is_bound_to_over_exactly_its_range
 //@end
-//~not_decided the rendered hover text (Display/format!), `doc_cursor` (which declaration contains the cursor; async), `DocumentCursor::ident` (assumed)
+//~not_decided the rendered hover text (Display/format!); `doc_cursor` and `DocumentCursor::ident` are under contract in unit `cursor`
 pub proof fn witness_hover() {
     let r: Range<usize> = 1usize..2usize;
     assert(r.start < r.end);
